@@ -26,7 +26,7 @@ Never imports qce_circuit.  Fail-closed: unknown methods, fields, statements or 
 """
 import ast
 from pycoq import (Env, FnTranslator, parse_file, find_class, find_func, enum_members, coq_enum, coq_record, coq_type,
-                   TranslateError, dataclass_fields, decorators, fail)
+                   TranslateError, dataclass_fields, decorators, fail, norm_function)
 
 D = 'src/qce_circuit/structure/acquisition_indexing/'
 SRC_REP = D + 'kernel_repetition_code.py'
@@ -107,11 +107,15 @@ class KTranslator(FnTranslator):
         if isinstance(n, ast.ListComp):
             need(len(n.generators) == 1, n, "comprehension with several generators")
             g = n.generators[0]
-            need(not g.ifs and not g.is_async and isinstance(g.target, ast.Name), n, "comprehension shape")
+            need(not g.is_async and isinstance(g.target, ast.Name), n, "comprehension shape")
             it, ity = self.expr(g.iter, loc)
             need(ity[0] == 'list', n, "comprehension over non-list")
             loc2 = dict(loc)
             loc2[g.target.id] = (g.target.id, ity[1])
+            for f in g.ifs:     # `[e for x in l if c1 if c2]` keeps the elements satisfying c1 then c2, in order
+                c, cty = self.expr(f, loc2)
+                self.want(n, cty, 'bool')
+                it = f"(filter (fun {g.target.id} => {c}) {it})"
             b, bty = self.expr(n.elt, loc2)
             return f"(map (fun {g.target.id} => {b}) {it})", ('list', bty)
         if isinstance(n, ast.IfExp):
@@ -332,7 +336,11 @@ def define(env, cls_name, fn, ret_ty, arg_types=None, static=False, option_mode=
         loc[a] = (a, t)
     pname = fn.name.strip('_') if fn.name.startswith('__') else fn.name
     coqname = coqname or f"{cls_name}_{pname}"
-    text = tr.body(fn.body if body is None else body, loc, ret_ty)
+    if body is None:
+        # `r = []; for x in it: [if c: continue] r.append(e); <use of r>` is read as the comprehension it computes (pycoq N5, with
+        # N4 for that one local only).  Annotations stay (they are read as types / up-casts here) and other locals stay (`let`s).
+        body = norm_function(fn, annotations=False, guards=False, single_use=False, helpers=False).body
+    text = tr.body(body, loc, ret_ty)
     if static:
         env.statics[(cls_name, fn.name)] = (coqname, arg_types, ret_ty)
     else:
